@@ -22,6 +22,18 @@ def mkfunc(name, sig, with_self):
     return _FUNCS[key]
 
 
+def mkfunc_d(name, sig):
+    """a method whose `self` has a default too (and whose body has locals): `def m(a0=None, b0=None, *args, **kws)`"""
+    r, o, v, k = sig
+    key = (name, "D", o, v, k)
+    if key not in _FUNCS:
+        ps = ["a0=None"] + ["b%d=None" % i for i in range(o)] + (["*args"] if v else []) + (["**kws"] if k else [])
+        ns = {}
+        exec("def %s(%s):\n    x = 1\n    y = 2\n    return x, y" % (name, ", ".join(ps)), ns)
+        _FUNCS[key] = ns[name]
+    return _FUNCS[key]
+
+
 def shapes(sig, impl_pos):
     r, o, v, k = sig
     out = [(n, {}) for n in range(r, r + o + 1)]
@@ -60,17 +72,113 @@ def run(lines, out, args):
             return "BM:%s:%s" % (e.method.lstrip("m") if isinstance(e.method, str) else getattr(e.method, "__name__", "?").lstrip("m"), code)
         return "other:" + type(e).__name__
 
+    serial = [0]
+
+    def desc(n, d):
+        return Attribute("attr m%s" % n) if d == "A" else mkfunc("m" + n, psig(d[1:]), False)
+
+    def candidate(elems, cls_mode, declared_for):
+        body = {}
+        inst_attrs = {}
+        for n, d, c in elems:
+            name = "m" + n
+            if c == "X":
+                continue
+            if c[0] == "G":
+                body[name] = mkfunc(name, psig(c[1:]), True)
+            elif c[0] == "H":
+                # a method without a named self: `def m(*args[, **kws])` in the class body
+                body[name] = mkfunc(name, psig(c[1:]), False)
+            elif c[0] == "D":
+                body[name] = mkfunc_d(name, psig(c[1:]))
+            elif c[0] == "F":
+                inst_attrs[name] = mkfunc(name, psig(c[1:]), False)
+            elif c == "B":
+                if cls_mode:
+                    body[name] = dict.pop            # method descriptor
+                else:
+                    inst_attrs[name] = {}.pop        # builtin
+            elif c == "N":
+                (body if cls_mode else inst_attrs)[name] = 42
+            elif c == "P":
+                body[name] = property(lambda self: 7)
+        C = type("C", (), body)
+        if declared_for is not None:
+            classImplements(C, declared_for)
+        ob = C()
+        for k, v in inst_attrs.items():
+            setattr(ob, k, v)
+        return C, ob
+
+    def verify_and_judge(I, elems, C, ob, cls_mode, tentative, declared):
+        cand = C if cls_mode else ob
+        try:
+            (verifyClass if cls_mode else verifyObject)(I, cand, tentative=tentative)
+            got = "ok"
+        except MultipleInvalid as e:
+            got = "multi " + " ".join(render(x) for x in e.exceptions)
+        except Invalid as e:
+            got = "single " + render(e)
+        # ---- the statement, evaluated with inspect only
+        fails = []
+        if not tentative and not declared:
+            fails.append("DNI")
+        for n, d, c in elems:
+            name = "m" + n
+            probe = ob if not cls_mode else C
+            if not hasattr(probe, name):
+                if d == "A" and cls_mode:
+                    continue
+                fails.append("BI:" + n)
+                continue
+            if d == "A":
+                continue
+            attr = getattr(probe, name)
+            if c[0] in "FGHD":
+                target = attr if not cls_mode else getattr(C(), name)
+                s = inspect.signature(target)
+                impl_pos = len([p for p in s.parameters.values() if p.kind in (p.POSITIONAL_ONLY, p.POSITIONAL_OR_KEYWORD)])
+                okb = True
+                for k, kws in shapes(psig(d[1:]), impl_pos):
+                    try:
+                        s.bind(*([0] * k), **kws)
+                    except TypeError:
+                        okb = False
+                        break
+                if not okb:
+                    fails.append("BM:" + n)
+            elif c == "N":
+                fails.append("BM:" + n)
+            elif c == "P" and not cls_mode:
+                # on an instance the property has been evaluated: the attribute is the integer 7, not callable
+                fails.append("BM:" + n)
+        want = "ok" if not fails else ("single " if len(fails) == 1 else "multi ") + " ".join(fails)
+        return got, want
+
     for line in lines:
         f = line.split("|")
-        if f[0] != "verify":
+        if f[0] not in ("verify", "verify2"):
             out.write("bad\n")
             continue
         cls_mode, tentative, declared = f[1] == "c", f[2] == "1", f[3] == "1"
         elems = [e.split(":") for e in f[4].split(";") if e]
         nbase = int(f[5]) if len(f) > 5 else 0
         try:
-            def desc(n, d):
-                return Attribute("attr m%s" % n) if d == "A" else mkfunc("m" + n, psig(d[1:]), False)
+            if f[0] == "verify2":
+                # verify, give an ancestor a further base (which brings the first `nextra` elements), verify again
+                nextra = int(f[6])
+                serial[0] += 1         # interfaces that are re-based need keys of their own (equal name+module = one dictionary key)
+                IE = InterfaceClass("IE%d" % serial[0], (Interface,), {"m" + n: desc(n, d) for n, d, c in elems[:nextra]}, __module__="zi.gen")
+                IB = InterfaceClass("IB%d" % serial[0], (Interface,), {"m" + n: desc(n, d) for n, d, c in elems[nextra:nextra + nbase]}, __module__="zi.gen")
+                I = InterfaceClass("I%d" % serial[0], (IB,), {"m" + n: desc(n, d) for n, d, c in elems[nextra + nbase:]}, __module__="zi.gen")
+                C, ob = candidate(elems, cls_mode, I if declared else None)
+                g1, w1 = verify_and_judge(I, elems[nextra:], C, ob, cls_mode, tentative, declared)
+                IB.__bases__ = (IE,)
+                order = [n for n, _ in I.namesAndDescriptions(all=True)]
+                order_ok = order == ["m" + n for n, d, c in elems]
+                g2, w2 = verify_and_judge(I, elems, C, ob, cls_mode, tentative, declared)
+                out.write("%s ## %s || %s ## %s%s\n" % (g1, g2, w1, w2, "" if order_ok else " ORDER-MISMATCH %s" % order))
+                continue
             base_attrs = {"m" + n: desc(n, d) for n, d, c in elems[:nbase]}
             own_attrs = {"m" + n: desc(n, d) for n, d, c in elems[nbase:]}
             IB = InterfaceClass("IB", (Interface,), base_attrs, __module__="zi.gen")
@@ -78,76 +186,8 @@ def run(lines, out, args):
                 InterfaceClass("I", (Interface,), own_attrs, __module__="zi.gen")
             order = [n for n, _ in I.namesAndDescriptions(all=True)]
             order_ok = order == ["m" + n for n, d, c in elems]
-            body = {}
-            inst_attrs = {}
-            for n, d, c in elems:
-                name = "m" + n
-                if c == "X":
-                    continue
-                if c[0] == "G":
-                    body[name] = mkfunc(name, psig(c[1:]), True)
-                elif c[0] == "H":
-                    # a method without a named self: `def m(*args[, **kws])` in the class body
-                    body[name] = mkfunc(name, psig(c[1:]), False)
-                elif c[0] == "F":
-                    inst_attrs[name] = mkfunc(name, psig(c[1:]), False)
-                elif c == "B":
-                    if cls_mode:
-                        body[name] = dict.pop            # method descriptor
-                    else:
-                        inst_attrs[name] = {}.pop        # builtin
-                elif c == "N":
-                    (body if cls_mode else inst_attrs)[name] = 42
-                elif c == "P":
-                    body[name] = property(lambda self: 7)
-            C = type("C", (), body)
-            if declared:
-                classImplements(C, I)
-            ob = C()
-            for k, v in inst_attrs.items():
-                setattr(ob, k, v)
-            cand = C if cls_mode else ob
-            try:
-                (verifyClass if cls_mode else verifyObject)(I, cand, tentative=tentative)
-                got = "ok"
-            except MultipleInvalid as e:
-                got = "multi " + " ".join(render(x) for x in e.exceptions)
-            except Invalid as e:
-                got = "single " + render(e)
-            # ---- the statement, evaluated with inspect only
-            fails = []
-            if not tentative and not declared:
-                fails.append("DNI")
-            for n, d, c in elems:
-                name = "m" + n
-                probe = ob if not cls_mode else C
-                if not hasattr(probe, name):
-                    if d == "A" and cls_mode:
-                        continue
-                    fails.append("BI:" + n)
-                    continue
-                if d == "A":
-                    continue
-                attr = getattr(probe, name)
-                if c[0] in "FGH":
-                    target = attr if not cls_mode else getattr(C(), name)
-                    s = inspect.signature(target)
-                    impl_pos = len([p for p in s.parameters.values() if p.kind in (p.POSITIONAL_ONLY, p.POSITIONAL_OR_KEYWORD)])
-                    okb = True
-                    for k, kws in shapes(psig(d[1:]), impl_pos):
-                        try:
-                            s.bind(*([0] * k), **kws)
-                        except TypeError:
-                            okb = False
-                            break
-                    if not okb:
-                        fails.append("BM:" + n)
-                elif c == "N":
-                    fails.append("BM:" + n)
-                elif c == "P" and not cls_mode:
-                    # on an instance the property has been evaluated: the attribute is the integer 7, not callable
-                    fails.append("BM:" + n)
-            want = "ok" if not fails else ("single " if len(fails) == 1 else "multi ") + " ".join(fails)
+            C, ob = candidate(elems, cls_mode, I if declared else None)
+            got, want = verify_and_judge(I, elems, C, ob, cls_mode, tentative, declared)
             out.write("%s || %s%s\n" % (got, want, "" if order_ok else " ORDER-MISMATCH %s" % order))
         except Exception as e:  # noqa
             out.write("err %s %s\n" % (type(e).__name__, str(e)[:80]))
